@@ -627,6 +627,159 @@ def check_joint(ctx, rep):
                       f"the same id get the same attribute name, Parametric.__setattr__ then evicts the earlier one, and a likelihood or Jacobian term silently drops out of the joint")
 
 
+class _W:
+    """words over matrix atoms for deciding A·Aᵀ = Σ: a word is a list of (name, inverted, transposed); ('chol:X', …) is the Cholesky factor of the word X"""
+
+    @staticmethod
+    def inv(w):
+        return [(n, not i, t) for n, i, t in reversed(w)]
+
+    @staticmethod
+    def tr(w):
+        return [(n, i, not t) for n, i, t in reversed(w)]
+
+    @staticmethod
+    def reduce(w, chol):
+        w = list(w)
+        changed = True
+        while changed:
+            changed = False
+            for k in range(len(w) - 1):
+                (n1, i1, t1), (n2, i2, t2) = w[k], w[k + 1]
+                if n1 == n2 and t1 == t2 and i1 != i2:                      # X·X⁻¹
+                    del w[k:k + 2]
+                    changed = True
+                    break
+                if n1 == n2 and n1 in chol:
+                    if (i1, t1, i2, t2) == (False, False, False, True):       # C·Cᵀ = X
+                        w[k:k + 2] = chol[n1]
+                        changed = True
+                        break
+                    if (i1, t1, i2, t2) == (True, True, True, False):         # C⁻ᵀ·C⁻¹ = X⁻¹
+                        w[k:k + 2] = _W.inv(chol[n1])
+                        changed = True
+                        break
+        return w
+
+
+def check_mvn_construction(ctx, rep):
+    """C14.C — the torch distribution the multivariate-normal family samples from and evaluates has the covariance its parameterisation says: the parameter tensor is passed
+    under the keyword named by the parameterisation, or converted to a scale_tril A with A·Aᵀ = Σ (Σ = T·Tᵀ, T or T⁻¹), decided in a word algebra with cholesky / inverse /
+    triangular solve / transpose — `inverse(cholesky(P))` is a factor of (LᵀL)⁻¹, not of P⁻¹ = (LLᵀ)⁻¹."""
+    cls = ctx.classes.find('torchtree.distributions.multivariate_normal.MultivariateNormal')
+    if cls is None:
+        rep.undecided('C14.C', 'MultivariateNormal::construction', '', 'class not found')
+        return
+    m = cls.module
+    n = 0
+    for fname, fn in sorted(cls.methods.items()):
+        for c in ast.walk(fn):
+            if not (isinstance(c, ast.Call) and (dotted_name(c.func) or '').endswith('distributions.MultivariateNormal')):
+                continue
+            n += 1
+            key = f"MultivariateNormal.{fname}::covariance-of-the-torch-distribution-is-the-parameterised-one"
+            kws = {k.arg: k.value for k in c.keywords}
+            if None in kws:
+                # **kwargs with kwargs = {self.parameterization: self.parameter.tensor}
+                kd = [st.value for st in ast.walk(fn) if isinstance(st, ast.Assign) and isinstance(st.targets[0], ast.Name) and isinstance(kws[None], ast.Name) and st.targets[0].id == kws[None].id]
+                ok = len(kd) == 1 and isinstance(kd[0], ast.Dict) and len(kd[0].keys) == 1 and self_attr(kd[0].keys[0]) == 'parameterization' \
+                    and norm_text(kd[0].values[0]).replace(' ', '') == 'self.parameter.tensor'
+                rep.check('C14.C', key, ok, where(m, c), {'keywords': norm_text(kd[0])[:80] if kd else None},
+                          f"MultivariateNormal.{fname} must hand the parameter tensor to torch under the keyword its parameterisation names")
+                continue
+            if 'scale_tril' not in kws:
+                rep.undecided('C14.C', key, where(m, c), 'construction of the torch distribution not recognised')
+                continue
+            for par in ('scale_tril', 'covariance_matrix', 'precision_matrix'):
+                # parameterisations excluded by a test on self.parameterization that encloses the construction
+                feasible = True
+                node_, par_ = c, getattr(c, '_parent', None)
+                while par_ is not None and par_ is not fn:
+                    if isinstance(par_, ast.If) and isinstance(par_.test, ast.Compare) and len(par_.test.ops) == 1 and self_attr(par_.test.left) == 'parameterization' \
+                            and isinstance(par_.test.comparators[0], ast.Constant) and isinstance(par_.test.ops[0], (ast.Eq, ast.NotEq)):
+                        hit = (par_.test.comparators[0].value == par) == isinstance(par_.test.ops[0], ast.Eq)
+                        in_body = any(node_ is x or any(node_ is y for y in ast.walk(x)) for x in par_.body)
+                        if hit != in_body:
+                            feasible = False
+                    node_, par_ = par_, getattr(par_, '_parent', None)
+                if not feasible:
+                    continue
+                k2 = f"{key}::{par}"
+                chol = {}
+                T = [('T', False, False)]
+
+                def word(e, fn_=fn, depth=0):
+                    if isinstance(e, ast.Name):
+                        ds = [st.value for st in ast.walk(fn_) if isinstance(st, ast.Assign) and len(st.targets) == 1 and isinstance(st.targets[0], ast.Name) and st.targets[0].id == e.id]
+                        if len(ds) == 1:
+                            return word(ds[0], fn_, depth)
+                        raise Unsupported(e, f"name {e.id}")
+                    if norm_text(e).replace(' ', '') == 'self.parameter.tensor':
+                        return list(T)
+                    if isinstance(e, ast.Call) and self_attr(e.func) and not e.args and depth < 3:
+                        r_ = cls.resolve(e.func.attr)
+                        if r_ is None:
+                            raise Unsupported(e, 'helper')
+                        return body(r_[1].body, r_[1], depth + 1)
+                    if isinstance(e, ast.Call):
+                        nm = (dotted_name(e.func) or (e.func.attr if isinstance(e.func, ast.Attribute) else '')).split('.')[-1]
+                        torch_like = isinstance(e.func, ast.Attribute) and ast.unparse(e.func.value) in ('torch', 'torch.linalg')
+                        operand = (e.args[0] if e.args else None) if torch_like else (e.func.value if isinstance(e.func, ast.Attribute) else None)
+                        if nm == 'cholesky' and operand is not None:
+                            w = word(operand, fn_, depth)
+                            name = 'chol:' + repr(w)
+                            chol[name] = w
+                            return [(name, False, False)]
+                        if nm in ('inverse', 'inv') and operand is not None:
+                            return _W.inv(word(operand, fn_, depth))
+                        if nm == 'solve_triangular' and torch_like and len(e.args) >= 2:
+                            rhs = e.args[1]
+                            ident = isinstance(rhs, ast.Name) and any(isinstance(st, ast.Assign) and any(isinstance(t, ast.Name) and t.id == rhs.id for t in st.targets)
+                                                                      and isinstance(st.value, ast.Call) and (dotted_name(st.value.func) or '').endswith('eye') for st in ast.walk(fn_))
+                            if ident:
+                                return _W.inv(word(e.args[0], fn_, depth))
+                        if nm in ('transpose', 'mT', 't') and operand is not None:
+                            return _W.tr(word(operand, fn_, depth))
+                    if isinstance(e, ast.Attribute) and e.attr in ('mT', 'T'):
+                        return _W.tr(word(e.value, fn_, depth))
+                    raise Unsupported(e, f"matrix expression {norm_text(e)[:40]}")
+
+                def test(tn):
+                    if isinstance(tn, ast.Compare) and len(tn.ops) == 1 and isinstance(tn.ops[0], (ast.Eq, ast.NotEq)) and self_attr(tn.left) == 'parameterization' \
+                            and isinstance(tn.comparators[0], ast.Constant):
+                        hit = tn.comparators[0].value == par
+                        return hit if isinstance(tn.ops[0], ast.Eq) else not hit
+                    raise Unsupported(tn, 'test')
+
+                def body(stmts, fn_, depth):
+                    for st in stmts:
+                        if isinstance(st, ast.Expr) and isinstance(st.value, ast.Constant):
+                            continue
+                        if isinstance(st, ast.Assign):
+                            continue
+                        if isinstance(st, ast.If):
+                            r_ = body(st.body if test(st.test) else st.orelse, fn_, depth)
+                            if r_ is not None:
+                                return r_
+                            continue
+                        if isinstance(st, ast.Return) and st.value is not None:
+                            return word(st.value, fn_, depth)
+                        raise Unsupported(st, 'statement')
+                    return None
+                try:
+                    A = word(kws['scale_tril'])
+                    got = _W.reduce(A + _W.tr(A), chol)
+                    want = {'scale_tril': _W.reduce(T + _W.tr(T), chol), 'covariance_matrix': list(T), 'precision_matrix': _W.inv(T)}[par]
+                    show = lambda w: '·'.join(n_.split(':')[0] + ('⁻' if i_ else '') + ('ᵀ' if t_ else '') for n_, i_, t_ in w) or 'I'
+                    rep.check('C14.C', k2, got == want, where(m, c), {'A_times_A_transposed': show(got), 'covariance': show(want)},
+                              f"with the {par} parameterisation MultivariateNormal.{fname} hands torch a scale_tril A with A·Aᵀ = {show(got)}, but the covariance is {show(want)} "
+                              f"(T the stored matrix, chol its Cholesky factor): draws and densities belong to another Gaussian")
+                except Unsupported as u:
+                    rep.undecided('C14.C', k2, where(m, c), f"conversion to scale_tril outside the vocabulary: {u}")
+    if n < 1:
+        rep.incomplete('C14.C', 'MultivariateNormal::construction', '', 'no construction of torch.distributions.MultivariateNormal found')
+
+
 def check_mvn_entropy(ctx, rep):
     """C14.C — the entropy of the multivariate normal variational family (ELBO(entropy=True) adds it instead of −E log q).  Either it is delegated to the torch distribution
     built exactly as log_prob / rsample build it (same keyword dictionary), or it is a closed form: then, for each of the three parameterisations, the returned expression must be
@@ -648,6 +801,21 @@ def check_mvn_entropy(ctx, rep):
         return [norm_text(st.value) for st in ast.walk(fn) if isinstance(st, ast.Assign) and isinstance(st.targets[0], ast.Name) and st.targets[0].id == 'kwargs']
     ce, cl = torch_ctor(ent), torch_ctor(lp)
     key = 'MultivariateNormal.entropy::entropy-of-the-distribution-log_prob-evaluates'
+    # both delegate to one helper of the class that builds the torch distribution: the same distribution by construction (the helper itself is decided by check_mvn_construction)
+    def helper_of(fn, attr):
+        rets = [r for r in ast.walk(fn) if isinstance(r, ast.Return) and r.value is not None]
+        if len(rets) == 1 and isinstance(rets[0].value, ast.Call) and isinstance(rets[0].value.func, ast.Attribute) and rets[0].value.func.attr == attr:
+            inner = rets[0].value.func.value
+            if isinstance(inner, ast.Call) and self_attr(inner.func) and not inner.args:
+                return self_attr(inner.func)
+            if self_attr(inner):
+                return self_attr(inner)
+        return None
+    he, hl = helper_of(ent, 'entropy'), helper_of(lp, 'log_prob')
+    if ce is None and he is not None:
+        rep.check('C14.C', key, he == hl, where(m, ent), {'entropy_delegates_to': he, 'log_prob_delegates_to': hl},
+                  "MultivariateNormal.entropy must return the entropy of the very torch distribution log_prob evaluates")
+        return
     if ce is not None:
         rets = [r for r in ast.walk(ent) if isinstance(r, ast.Return) and r.value is not None]
         delegated = len(rets) == 1 and isinstance(rets[0].value, ast.Call) and isinstance(rets[0].value.func, ast.Attribute) and rets[0].value.func.attr == 'entropy' and rets[0].value.func.value is ce
@@ -745,6 +913,28 @@ def run(ctx, rep):
         check_mvn_entropy(ctx, rep)
     except Unsupported as u:
         rep.undecided('C14.C', 'check_mvn_entropy', '', str(u))
+    check_mvn_construction(ctx, rep)
     # options of the objectives reach the constructor parameter of their own name
     from props import c09
     c09.check_positional_options(ctx, rep, rule='C14.O', only=lambda ci: ci.module.name.startswith('torchtree.variational'))
+    # C14.S (what the assumption above rests on, decided here for the classes the objectives use): a draw written through a parameter kind reaches every model term
+    # (setters notify, nobody writes another object's storage), and nothing derived from the parameters of a distribution is served from a cache keyed by less than their values
+    from props import c11
+    from sa.report import RuleProxy
+    from sa.members import PARAM_BASE
+    for cls in sorted(ctx.classes.classes.values(), key=lambda c: c.qualname):
+        if cls.module.name == 'torchtree.core.parameter' and cls.has_base(PARAM_BASE):
+            c11.check_setters(ctx, RuleProxy(rep, 'C14.S', 'draw-reaches-the-model::'), cls)
+    c11.check_foreign_private_stores(ctx, RuleProxy(rep, 'C14.S', 'draw-reaches-the-model::'), rule='C14.S')
+    c11.check_memo_keys(ctx, RuleProxy(rep, 'C14.S', 'memo::'), only=lambda m: m.name.startswith('torchtree.distributions') or m.name.startswith('torchtree.variational'))
+    # C14.C (shapes): the joint adds the components of ONE draw — no whole-tensor reduction and no axis counted from the front in JointDistributionModel (C10.D / C10.P / C10.J rules);
+    # with [S, K] a `flatten(1)` adds the K inner draws of a row and every objective returns K·log Z
+    from props import c10
+    jm = 'torchtree.distributions.joint_distribution'
+    c10.check_whole_reductions(ctx, RuleProxy(rep, 'C14.C', 'joint-shapes::'), only=lambda mname: mname == jm)
+    nfa = c10.check_front_axes(ctx, RuleProxy(rep, 'C14.C', 'joint-shapes::'), only=lambda mname: mname == jm)
+    try:
+        c10.check_joint(ctx, RuleProxy(rep, 'C14.C', 'joint-shapes::'))
+    except (AnalysisError, Unsupported) as u:
+        rep.undecided('C14.C', 'joint-shapes::check_joint', '', str(u))
+    rep.ok('C14.C', 'joint-shapes::scanned', '', {'axis_operations': nfa})
